@@ -119,7 +119,7 @@ func genOps(b bias, guard bool) []mach.Op {
 	case r < b.fail*0.8:
 		ops = append(ops, mach.Op{Name: "emitbad"})
 	case r < b.fail*0.8+b.exotic:
-		ops = append(ops, mach.Op{Name: pickS([]string{"retgetter", "retcyclic", "throwobj"})})
+		ops = append(ops, mach.Op{Name: pickS([]string{"retgetter", "retcyclic", "throwobj", "retcyclicobj"})})
 	case r < b.fail*0.8+b.exotic+b.loop:
 		ops = append(ops, mach.Op{Name: "loop"})
 	case r < b.fail*0.8+b.exotic+b.loop+0.12:
@@ -473,7 +473,9 @@ func stepCase(id int, kind string, in stepIn) O {
 // step properties with containers nested in maps and in arrays
 func genProps() core.StepProps {
 	return core.StepProps{"mid": "m1", "n": map[string]interface{}{"k": float64(1), "deep": map[string]interface{}{"z": []interface{}{float64(1)}}},
-		"l": []interface{}{map[string]interface{}{"c": float64(1)}, []interface{}{float64(1), map[string]interface{}{"d": "x"}}, "s"}}
+		"l": []interface{}{map[string]interface{}{"c": float64(1)}, []interface{}{float64(1), map[string]interface{}{"d": "x"}}, "s"},
+		// containers of other Go types, which hosts may well put into the properties
+		"labels": map[string]string{"env": "prod"}, "peers": []string{"p1", "p2"}, "rows": []map[string]interface{}{{"r": "one"}}}
 }
 
 func genStep(id int, kind string, b bias) O {
